@@ -59,15 +59,16 @@ ASendExplicit(k) ==
     \/ Refuse
 
 \* C10: a response goes to the request registered under its id and to no other
-ADeliver(id, isLast) ==
+\* (mark identifies the frame in the request's buffer: its arrival number, or any caller-chosen distinct value)
+ADeliverM(id, isLast, mark) ==
     IF aclosed \/ reg[id] = 0 THEN UNCHANGED avars                 \* unknown id: dropped, nothing disturbed
     ELSE LET t == reg[id]
              r == rq[t]
-             f == anframe + 1
+             f == mark
              \* what may happen to the addressed request
              appended == [r EXCEPT !.buf = Append(r.buf, f), !.silence = 0, !.done = isLast]
              overflow == [r EXCEPT !.done = TRUE, !.failed = TRUE, !.silence = 0]
-         IN /\ anframe' = f
+         IN /\ anframe' = anframe + 1
             /\ \/ ~r.done /\ Len(r.buf) < MaxPending /\ rq' = [rq EXCEPT ![t] = appended]
                \/ ~r.done /\ Len(r.buf) >= MaxPending /\ rq' = [rq EXCEPT ![t] = overflow]
                \/ r.done /\ rq' = rq                                \* already completed or failed: dropped
@@ -75,6 +76,8 @@ ADeliver(id, isLast) ==
             /\ reg' = IF isLast THEN [reg EXCEPT ![id] = 0] ELSE reg
             /\ pool' = IF isLast /\ r.managed THEN pool \cup {id} ELSE pool
             /\ UNCHANGED aclosed
+
+ADeliver(id, isLast) == ADeliverM(id, isLast, anframe + 1)
 
 \* frames come out of a request in arrival order, each once
 AReceive(t) ==
